@@ -159,6 +159,11 @@ pub fn rmapper() -> RecursivePageTable<'static> {
     unsafe { RecursivePageTable::new_unchecked(&mut *core::ptr::addr_of_mut!(POOL[0]), crate::structures::paging::PageTableIndex::new(RECURSIVE_INDEX as u16)) }
 }
 
+/// OffsetPageTable over the pool (S-ptr stub `stub_as_ptr_offset`)
+pub fn omapper() -> OffsetPageTable<'static> {
+    unsafe { OffsetPageTable::new(&mut *core::ptr::addr_of_mut!(POOL[0]), VirtAddr::new_unsafe(OFFSET_BASE)) }
+}
+
 pub fn mapper() -> MappedPageTable<'static, PoolMap> {
     unsafe { MappedPageTable::new(&mut *core::ptr::addr_of_mut!(POOL[0]), PoolMap) }
 }
@@ -673,6 +678,23 @@ size_ops!(s1g, Size1GiB, 3, 3, mapper);
 size_ops!(r4k, Size4KiB, 1, 1, rmapper);
 size_ops!(r2m, Size2MiB, 2, 2, rmapper);
 size_ops!(r1g, Size1GiB, 3, 3, rmapper);
+
+// ... and for OffsetPageTable (every trait method is an explicit delegation to the inner MappedPageTable)
+size_ops!(o4k, Size4KiB, 1, 1, omapper);
+size_ops!(o2m, Size2MiB, 2, 2, omapper);
+size_ops!(o1g, Size1GiB, 3, 3, omapper);
+
+pub fn translate_only_offset(inst: Inst) {
+    let sc = build(inst, 0);
+    kani::cover!(true);
+    let m = omapper();
+    let mut j = 0;
+    while j < 5 {
+        check_translate_agrees(&m, sc.probes[j]);
+        j += 1;
+    }
+    vp!(C09, unsafe { !STRAY_ACCESS }, "translate dereferenced memory that is not a page table of the hierarchy");
+}
 
 /// translate family on an arbitrary hierarchy (no modification).
 pub fn translate_only_recursive(inst: Inst) {
